@@ -67,7 +67,7 @@ ASSUMPTIONS = [
     "value and every Ritz value must lie inside [lambda_min, lambda_max]",
     "SLQ exactness is demanded for order >= n only; tolerance 1e-9 * n * max|log lambda| with full "
     "re-orthogonalisation (public stochastic_lq_logdet), 1e-7 for the ELBO's internal default without "
-    "re-orthogonalisation (observed errors < 1e-12 on > 2000 generated cases)",
+    "re-orthogonalisation or with the partial one (observed errors < 1e-13 * scale on 1600 generated metrics)",
     "ELBO samples are exact posterior samples m + D^(1/2) w with generated dyadic w (white, antithetic pairs, or "
     "the 2N sigma points +-sqrt(N) e_j whose second moment is exactly 1, so that <H> is the exact posterior "
     "expectation and the ELBO with all eigenvalues equals the log-evidence); at least 2 samples",
@@ -142,7 +142,9 @@ def _spd(rec):
 
 @st.composite
 def _spd_part(draw, nmax):
-    n = draw(st.integers(1, nmax))
+    # few distinct sizes: every new (n, order, ...) signature costs one XLA compilation (seconds)
+    sizes = [k for k in (5, 8, 3, 12, 2, 1) if k <= nmax]
+    n = sizes[draw(st.integers(0, len(sizes) - 1))]
     ints = draw(st.lists(st.integers(4, 256), min_size=n, max_size=n, unique=True))
     mult = draw(st.sampled_from(["simple", "simple", "simple", "double", "clustered"]))
     if mult == "double" and n >= 2:
@@ -152,7 +154,7 @@ def _spd_part(draw, nmax):
         for i in range(1, k):
             ints[i] = ints[0]
     lam = [i / 16.0 for i in ints]
-    nh = draw(st.sampled_from([0, 1, 2, n, n]))
+    nh = [n, 1, 0, 2, n][draw(st.integers(0, 4))]
     hh = [draw(S.vec(n, S.dyadic(-2, 2, 4))) for _ in range(nh)]
     return {"n": n, "lam": lam, "hh": hh}
 
@@ -168,20 +170,29 @@ def _spd_classes(rec):
 
 
 # ------------------------------------------------------------------ sub-check 1: lanczos_tridiag
+@functools.lru_cache(maxsize=None)
+def _tridiag_jitted(n, shape, order):
+    """compiled variant: one XLA program per (n, v.shape, order), matrix and start vector are arguments"""
+    jax, jnp, jft = _jx()
+
+    def run(Aj, vv):
+        return jft.lanczos.lanczos_tridiag(lambda x: (Aj @ x.reshape((n,))).reshape(shape), vv, order=order)
+
+    return jax.jit(run)
+
+
 def _run_tridiag(A, v, shape, order, jit):
     jax, jnp, jft = _jx()
     n = A.shape[0]
     Aj = jnp.asarray(A)
-
-    def mat(x):
-        return (Aj @ x.reshape((n,))).reshape(shape)
-
-    def run(vv):
-        return jft.lanczos.lanczos_tridiag(mat, vv, order=order)
-
-    if jit:
-        run = jax.jit(run)
-    T, V = run(jnp.asarray(v.reshape(shape)))
+    vv = jnp.asarray(v.reshape(shape))
+    if jit == "jit":
+        T, V = _tridiag_jitted(n, tuple(shape), order)(Aj, vv)
+    elif jit == "nojit":
+        with jax.disable_jit():     # op-by-op execution: lax.fori_loop / cond run as Python control flow
+            T, V = jft.lanczos.lanczos_tridiag(lambda x: (Aj @ x.reshape((n,))).reshape(shape), vv, order=order)
+    else:
+        T, V = jft.lanczos.lanczos_tridiag(lambda x: (Aj @ x.reshape((n,))).reshape(shape), vv, order=order)
     T, V = np.asarray(T), np.asarray(V)
     require(T.shape == (order, order), "tridiag_shape", f"{T.shape} for order {order}")
     require(V.shape == (order,) + tuple(shape), "basis_shape", f"{V.shape} for order {order}, v.shape {shape}")
@@ -231,7 +242,7 @@ def check_lanczos(rec):
     classes = _spd_classes(rec)
     classes.append("start_excites_all" if d == len(set(lam.tolist())) else "start_deficient")
     classes.append("v_" + ("flat" if len(shape) == 1 else f"{len(shape)}d"))
-    classes.append("jit" if rec["jit"] else "eager")
+    classes.append("exec_" + rec["jit"])
 
     T, V = _run_tridiag(A, v, shape, order, rec["jit"])
     a = _check_decomposition(T, V, A, v, lmax, "")
@@ -260,7 +271,12 @@ def check_lanczos(rec):
         _check_decomposition(T2, V2, A, v2, lmax, "second_start:")
         logA = (Q * np.log(lam)) @ Q.T
         want = n * 0.5 * (v @ logA @ v / (v @ v) + v2 @ logA @ v2 / (v2 @ v2))
-        got = float(jft.stochastic_logdet_from_lanczos(jnp.stack([jnp.asarray(T), jnp.asarray(T2)]), n))
+        stack = jnp.stack([jnp.asarray(T), jnp.asarray(T2)])
+        if rec["jit"] == "nojit":
+            with jax.disable_jit():
+                got = float(jft.stochastic_logdet_from_lanczos(stack, n))
+        else:
+            got = float(jft.stochastic_logdet_from_lanczos(stack, n))
         close(got, want, "logdet_from_lanczos", tol=1e-9, scale=n * max(1.0, float(np.max(np.abs(np.log(lam))))))
     else:
         classes.append("order_partial")
@@ -283,11 +299,12 @@ def check_lanczos(rec):
 
 def _factor_shapes(n):
     out = [[n]]
-    for a in range(2, n):
-        if n % a == 0:
+    for a in (2, 3):
+        if n % a == 0 and n > a:
             out.append([a, n // a])
-    if n % 4 == 0 and n >= 8:
-        out.append([2, 2, n // 4])
+            break
+    if n == 12:
+        out.append([2, 3, 2])
     return out
 
 
@@ -298,25 +315,29 @@ def _coeff(n, zeros_ok):
     return st.lists(el, min_size=n, max_size=n)
 
 
+_EXEC = ["jit", "nojit", "jit", "eager", "nojit", "jit"]
+
+
 @st.composite
 def lanczos_recipes(draw, tier):
     rec = draw(_spd_part(12))
     n = rec["n"]
-    deficient = draw(st.integers(0, 3)) == 0
+    deficient = draw(st.booleans()) and draw(st.booleans())
     c = draw(_coeff(n, deficient))
     if not any(c):
         c[0] = 1.0
     c2 = draw(_coeff(n, False))
-    kind = draw(st.sampled_from(["full", "full", "partial", "gt"]))
+    kind = ["full", "partial", "gt", "full", "partial"][draw(st.integers(0, 4))]
     if kind == "full" or n == 1:
         order = n
     elif kind == "partial":
-        order = draw(st.integers(1, n - 1))
+        order = sorted({1, (n + 1) // 2, n - 1})[draw(st.integers(0, 2)) % len({1, (n + 1) // 2, n - 1})]
     else:
-        order = n + draw(st.integers(1, 3))
-    order2 = draw(st.sampled_from([0, order + 1, n, n + 1]))
+        order = n + 2
+    order2 = [order + 1, n, 0, n + 2][draw(st.integers(0, 3))]
+    shapes = _factor_shapes(n)
     rec.update(c=c, c2=c2, order=order, order2=order2 if order2 > order else 0,
-               shape=draw(st.sampled_from(_factor_shapes(n))), jit=draw(st.integers(0, 3)) == 0)
+               shape=shapes[draw(st.integers(0, len(shapes) - 1))], jit=_EXEC[draw(st.integers(0, 5))])
     return rec
 
 
@@ -334,6 +355,20 @@ def _probes(key, n, m, batch):
     if z.shape != (m, n) or not np.all(np.abs(z) == 1.0):
         raise RuntimeError("probe re-derivation failed")
     return z
+
+
+def _slq_call(jft, Ain, n, order, m, form, key):
+    if form == "matrix":
+        return jft.stochastic_lq_logdet(Ain, order, m, key)
+    if form == "matrix_shape0":
+        return jft.stochastic_lq_logdet(Ain, order, m, key, shape0=n)
+    return jft.stochastic_lq_logdet(lambda x: Ain @ x, order, m, key, shape0=n)
+
+
+@functools.lru_cache(maxsize=None)
+def _slq_jitted(n, order, m, form):
+    jax, _, jft = _jx()
+    return jax.jit(lambda Ain, key: _slq_call(jft, Ain, n, order, m, form, key))
 
 
 def check_slq(rec):
@@ -354,18 +389,18 @@ def check_slq(rec):
     z = _probes(key, n, m, m)
     Aj = jnp.asarray(A)
     form = rec["form"]
-    classes += ["form_" + form, "order_eq_n" if order == n else "order_gt_n", "key_" + rec["keyform"],
-                "jit" if rec["jit"] else "eager", f"probes_{'1' if m == 1 else '2-3' if m <= 3 else '4+'}"]
+    classes += ["form_" + form, "order_eq_n" if order == n else "order_gt_n",
+                "exec_" + rec["jit"], "key_" + ("array" if rec["jit"] == "jit" else rec["keyform"]),
+                f"probes_{'1' if m == 1 else '2-3' if m <= 3 else '4+'}"]
     karg = seed if rec["keyform"] == "int" else key
-
-    def run(Ain):
-        if form == "matrix":
-            return jft.stochastic_lq_logdet(Ain, order, m, karg)
-        if form == "matrix_shape0":
-            return jft.stochastic_lq_logdet(Ain, order, m, karg, shape0=n)
-        return jft.stochastic_lq_logdet(lambda x: Ain @ x, order, m, karg, shape0=n)
-
-    got = float(jax.jit(run)(Aj) if rec["jit"] else run(Aj))
+    if rec["jit"] == "jit":
+        # compiled: matrix and key are arguments of one XLA program per (n, order, n_samples, input form)
+        got = float(_slq_jitted(n, order, m, form)(Aj, key))
+    elif rec["jit"] == "nojit":
+        with jax.disable_jit():
+            got = float(_slq_call(jft, Aj, n, order, m, form, karg))
+    else:
+        got = float(_slq_call(jft, Aj, n, order, m, form, karg))
     logA = (Q * np.log(lam)) @ Q.T
     want = float(np.mean(np.einsum("ij,jk,ik->i", z, logA, z)))
     scale = n * max(1.0, float(np.max(np.abs(np.log(lam)))))
@@ -381,19 +416,19 @@ def check_slq(rec):
 
 @st.composite
 def slq_recipes(draw, tier):
-    orth = draw(st.integers(0, 4)) == 0
+    orth = draw(st.booleans()) and draw(st.booleans())
     if orth:
         rec = draw(_spd_part(2))
         rec["hh"] = rec["hh"] or [[1.0, 0.5][:rec["n"]]]
         m = rec["n"]
     else:
         rec = draw(_spd_part(12))
-        m = draw(st.integers(1, 6))
+        m = [2, 4, 1, 2][draw(st.integers(0, 3))]
     n = rec["n"]
     rec.update(m=m, orth=orth, key=draw(st.integers(0, 2 ** 31 - 1000)),
-               order=n + draw(st.sampled_from([0, 0, 0, 1, 3])),
-               form=draw(st.sampled_from(["matrix", "matrix_shape0", "callable", "callable"])),
-               keyform=draw(st.sampled_from(["int", "array"])), jit=draw(st.integers(0, 3)) == 0)
+               order=n + [0, 2, 0][draw(st.integers(0, 2))],
+               form=["callable", "matrix", "callable", "matrix_shape0"][draw(st.integers(0, 3))],
+               keyform=["int", "array"][draw(st.integers(0, 1))], jit=_EXEC[draw(st.integers(0, 5))])
     return rec
 
 
@@ -464,22 +499,21 @@ class _Model:
 
 @st.composite
 def _model_part(draw, nmax=8):
-    N = draw(st.integers(1, nmax))
-    rel = draw(st.sampled_from(["eq", "more_data", "less_data"]))
-    nd = N if rel == "eq" else draw(st.integers(1, nmax))
+    N = [5, 3, 8, 2, 4, 6, 1, 7][draw(st.integers(0, 7))]
+    nd = N if draw(st.integers(0, 2)) == 0 else [4, 6, 2, 8, 3, 1, 5, 7][draw(st.integers(0, 7))]
     R = draw(S.mat(nd, N, S.dyadic(-2, 2, 4)))
     s = draw(st.one_of(S.vec(nd, S.dyadic_nz(0.25, 4, 4, signed=False)),
                        S.dyadic_nz(0.25, 4, 4, signed=False).map(lambda x: [x] * nd)))
     d = draw(S.vec(nd, S.dyadic(-4, 4, 4)))
-    kind = draw(st.sampled_from(["white", "white", "anti", "sigma"]))
+    kind = ["sigma", "anti", "white", "white", "sigma", "anti"][draw(st.integers(0, 5))]
     if kind == "white":
         w = draw(S.mat(draw(st.integers(2, 5)), N, S.dyadic(-2, 2, 4)))
     elif kind == "anti":
         w = draw(S.mat(draw(st.integers(1, 3)), N, S.dyadic(-2, 2, 4)))
     else:
         w = None
-    defect = draw(st.sampled_from([None, None, None, None, "zero_col", "dup_col", "zero_row", "dup_row"]))
-    split = draw(st.one_of(st.none(), st.integers(1, N - 1))) if N >= 2 else None
+    defect = [None, "dup_col", None, "zero_row", None, "dup_row", None, "zero_col", None][draw(st.integers(0, 8))]
+    split = draw(st.integers(1, N - 1)) if N >= 2 and draw(st.booleans()) else None
     return {"R": R, "s": s, "d": d, "smp": {"kind": kind, "w": w}, "defect": defect, "split": split}
 
 
@@ -588,6 +622,11 @@ def _slq_expected(mod, space, k, slq):
     return float(np.sum(f(op_lam[:k]))), float(np.mean(vals)), float(np.min(np.sum(zd * zd, axis=1)))
 
 
+def _split_point(v, nrel):
+    """number of eigenvalues of a partial run / first stage: 1 <= k < nrel whenever nrel >= 2"""
+    return 1 + v["k"] % (nrel - 1) if nrel >= 2 else 1
+
+
 def _variant_space(mod, v):
     sp = v["space"]
     if sp == "auto":
@@ -607,8 +646,10 @@ def _jax_problem(mod, rec):
             return Rj[:, :sp] @ x["a"] + Rj[:, sp:] @ x["b"]
 
         def tree(a):
+            # a bare dict has no arithmetic (StandardHamiltonian adds tangents): positions are jft.Vector, as in
+            # jft.optimize_kl
             a = jnp.asarray(a)
-            return {"a": a[..., :sp], "b": a[..., sp:]}
+            return jft.Vector({"a": a[..., :sp], "b": a[..., sp:]})
     else:
         dom = jax.ShapeDtypeStruct((N,), jnp.float64)
 
@@ -665,7 +706,7 @@ def _run_jax_variant(mod, lh, samples, v, box, idx):
         if v["apt"]:
             classes.append("analytic_prior_term")
     elif mode == "partial":
-        k = max(1, min(v["k"], nrel - 1)) if nrel >= 2 else 1
+        k = _split_point(v, nrel)
         if k >= nrel:
             es, st_ = _jax_call(lh, samples, nrel, v, odir)
             _oracle_all(es, st_, mod, tag, False)
@@ -707,7 +748,7 @@ def _run_jax_variant(mod, lh, samples, v, box, idx):
             else:
                 classes.append("slq_remainder_skipped_no_gap")
     else:  # resume
-        k1 = max(1, min(v["k"], nrel))
+        k1 = nrel if v.get("from_all") else _split_point(v, nrel)
         es1, st1 = _jax_call(lh, samples, k1, v, odir)
         (_oracle_all if k1 >= nrel else _oracle_partial)(es1, st1, mod, "first_stage:", *((False,) if k1 >= nrel else ()))
         ev, evec = _check_saved(odir, space, mod, "first_stage:", k1)
@@ -754,22 +795,23 @@ def check_elbo_jax(rec):
     return dict(nontrivial=nontrivial, classes=classes)
 
 
+_JAX_MODES = [("resume", "eigsh"), ("partial", "slq"), ("all", "eigsh"), ("partial", "eigsh"), ("resume", "eigsh"),
+              ("compute_all", "eigsh"), ("partial", "slq"), ("all", "slq"), ("resume", "eigsh"), ("compute_all", "slq")]
+
+
 @st.composite
 def _jax_variant(draw):
-    mode = draw(st.sampled_from(["all", "all", "compute_all", "partial", "partial", "resume", "resume", "resume"]))
-    method = draw(st.sampled_from(["eigsh", "eigsh", "slq"]))
-    v = {"mode": mode, "method": method, "space": draw(st.sampled_from(["signal", "signal", "data", "data", "auto"])),
+    mode, method = _JAX_MODES[draw(st.integers(0, len(_JAX_MODES) - 1))]
+    v = {"mode": mode, "method": method, "space": ["signal", "data", "auto", "data", "signal"][draw(st.integers(0, 4))],
          "jit": draw(st.booleans()), "jit2": draw(st.booleans()), "nb": draw(st.integers(1, 4)),
-         "nb2": draw(st.integers(1, 4)), "k": draw(st.integers(1, 7)), "odir": draw(st.booleans()),
-         "apt": draw(st.integers(0, 3)) == 0, "how2": draw(st.sampled_from(["n_rel", "n_rel", "compute_all"])),
-         "mle": draw(st.sampled_from([None, None, 1e-3, 0.5, 4.0]))}
-    if mode == "resume" and method == "slq":
-        v["method"] = "eigsh"
+         "nb2": draw(st.integers(1, 4)), "k": draw(st.integers(0, 11)), "odir": draw(st.booleans()),
+         "apt": draw(st.integers(0, 3)) == 0, "how2": ["n_rel", "compute_all", "n_rel"][draw(st.integers(0, 2))],
+         "mle": [None, 4.0, 1e-3, 0.5, None][draw(st.integers(0, 4))], "from_all": draw(st.integers(0, 5)) == 0}
     if method == "slq":
         v["slq"] = {"m": draw(st.integers(2, 5)), "key": draw(st.integers(0, 2 ** 31 - 1)),
-                    "extra": draw(st.sampled_from([0, 0, 2])), "jit": draw(st.integers(0, 2)) == 0,
-                    "reorth": draw(st.sampled_from(["full", "full", "none", "partial"])),
-                    "batch": draw(st.sampled_from([None, None, 2]))}
+                    "extra": [0, 2, 0][draw(st.integers(0, 2))], "jit": draw(st.integers(0, 2)) == 0,
+                    "reorth": ["full", "none", "partial", "full"][draw(st.integers(0, 3))],
+                    "batch": [None, 2, None][draw(st.integers(0, 2))]}
     return v
 
 
@@ -874,7 +916,7 @@ def check_elbo_classic(rec):
                 if v["apt"]:
                     classes.append("analytic_prior_term")
             elif mode == "partial":
-                k = max(1, min(v["k"], nrel - 1)) if nrel >= 2 else 1
+                k = _split_point(v, nrel)
                 es, st_ = _classic_call(ham, sl, k, v, odir)
                 if k >= nrel:
                     _oracle_all(es, st_, mod, "", False)
@@ -884,7 +926,7 @@ def check_elbo_classic(rec):
                     if odir:
                         _check_saved(odir, "signal", mod, "", k)
             else:
-                k1 = max(1, min(v["k"], nrel))
+                k1 = nrel if v.get("from_all") else _split_point(v, nrel)
                 es1, st1 = _classic_call(ham, sl, k1, v, odir)
                 if k1 >= nrel:
                     _oracle_all(es1, st1, mod, "first_stage:", False)
@@ -914,11 +956,11 @@ def check_elbo_classic(rec):
 
 @st.composite
 def _classic_variant(draw):
-    return {"mode": draw(st.sampled_from(["all", "compute_all", "partial", "resume", "resume", "resume"])),
-            "nb": draw(st.integers(1, 4)), "nb2": draw(st.integers(1, 4)), "k": draw(st.integers(1, 7)),
+    return {"mode": ["resume", "partial", "all", "resume", "compute_all", "resume"][draw(st.integers(0, 5))],
+            "nb": draw(st.integers(1, 4)), "nb2": draw(st.integers(1, 4)), "k": draw(st.integers(0, 11)),
             "odir": draw(st.booleans()), "apt": draw(st.integers(0, 3)) == 0, "pass_none": draw(st.booleans()),
-            "how2": draw(st.sampled_from(["n_rel", "n_rel", "compute_all"])),
-            "mle": draw(st.sampled_from([None, None, 1e-3, 0.5, 4.0]))}
+            "how2": ["n_rel", "compute_all", "n_rel"][draw(st.integers(0, 2))],
+            "mle": [None, 4.0, 1e-3, 0.5, None][draw(st.integers(0, 4))], "from_all": draw(st.integers(0, 5)) == 0}
 
 
 @st.composite
@@ -930,15 +972,15 @@ def elbo_classic_recipes(draw, tier):
 
 
 SUBS = [
-    Sub(name="lanczos_tridiag", check=check_lanczos, strategy=lanczos_recipes, quick=160, thorough=6000, shards=8,
+    Sub(name="lanczos_tridiag", check=check_lanczos, strategy=lanczos_recipes, quick=96, thorough=6000, shards=16,
         jax=True, budget_quick=100.0,
         rule="non-trivial = n >= 3, dense A (>= 1 Householder factor) and >= 3 excited distinct eigenvalues; classes "
              "show full / partial / larger-than-n orders, multiplicities, deficient start vectors, padding"),
-    Sub(name="slq_logdet", check=check_slq, strategy=slq_recipes, quick=160, thorough=6000, shards=8, jax=True,
+    Sub(name="slq_logdet", check=check_slq, strategy=slq_recipes, quick=96, thorough=6000, shards=16, jax=True,
         budget_quick=100.0,
         rule="non-trivial = n >= 3, dense A and >= 2 probes; classes show matrix / callable input, int / array keys, "
              "orthogonal probe sets and diagonal matrices (estimate == logdet)"),
-    Sub(name="elbo_jax", check=check_elbo_jax, strategy=elbo_jax_recipes, quick=64, thorough=2000, shards=16, jax=True,
+    Sub(name="elbo_jax", check=check_elbo_jax, strategy=elbo_jax_recipes, quick=96, thorough=2000, shards=16, jax=True,
         budget_quick=110.0,
         rule="non-trivial = N >= 2, n_data >= 2 and (two different modes among the 2-3 generated variants or a "
              "resumed run); classes show spaces, eager/jit, eigsh/slq, split points, rank-deficient responses"),
